@@ -543,6 +543,8 @@ def check(case):
         return check_rec(case)
     if case["src"] == "raw":
         return check_raw(case)
+    if case["src"] == "kat":
+        return check_kat(case)
     if case["src"] == "codec":
         return check_codec(case)
     if case["src"] == "reuse":
@@ -670,6 +672,8 @@ def rec_build(spec):
     if k == "fin2":
         cls = M.ClientFinished if spec[1] else M.ServerFinished
         return cls().create(prg("vd2", spec[2]))
+    if k == "dc":
+        return _dc_object(spec)
     raise HarnessError(k)
 
 
@@ -686,6 +690,7 @@ REC_FIELDS = {
             "certificate", "ciphers", "session_id"),
     "cmk": ("cipher", "clear_key", "encrypted_key", "key_argument"),
     "fin2": ("verify_data",),
+    "dc": ("algorithm", "signature"),
 }
 # errors the callers of each parser treat as "malformed"
 REC_ERRORS = {"stp": DECODE_ERRORS + (ValueError,)}
@@ -705,6 +710,9 @@ def rec_fields(k, o):
     if k == "stp":
         ch = o.client_cert_chain
         out.append(tuple(bytes(x.bytes) for x in ch.x509List) if ch else ())
+    if k == "dc":
+        out += [o.cred.valid_time, tuple(o.cred.dc_cert_verify_algorithm),
+                bytes(o.cred.subject_public_key_info)]
     return out
 
 
@@ -735,6 +743,9 @@ def rec_parse(k, data, spec):
     elif k == "fin2":
         p.get(1)
         o = (M.ClientFinished if spec[1] else M.ServerFinished)().parse(p)
+    elif k == "dc":
+        from tlslite.x509 import DelegatedCredential
+        o = DelegatedCredential().parse(p)
     else:
         raise HarnessError(k)
     return o, p.index
@@ -1217,6 +1228,66 @@ def fuzz_stage(tier, seed):
     return run_campaigns("C15", seed, 400000, 16, 1500, empty_corpus_procs=2)
 
 
+# ---------------------------------------------------------------------------
+# fixed encodings: an empty vector still carries its length prefix
+# (RFC 8446 3.4 / RFC 5246 4.3) - the value [] is not the value "absent"
+# ---------------------------------------------------------------------------
+EMPTY_KAT = {
+    "keyshare_c": (lambda: E.ClientKeyShareExtension().create([]),
+                   "003300020000", "client_shares"),
+    "psk_modes": (lambda: E.PskKeyExchangeModesExtension().create([]),
+                  "002d000100", "modes"),
+    "groups": (lambda: E.SupportedGroupsExtension().create([]),
+               "000a00020000", "groups"),
+    "sigalgs": (lambda: E.SignatureAlgorithmsExtension().create([]),
+                "000d00020000", "sigalgs"),
+    "versions": (lambda: E.SupportedVersionsExtension().create([]),
+                 "002b000100", "versions"),
+    "alpn": (lambda: E.ALPNExtension().create([]), "001000020000",
+             "protocol_names"),
+    "ecpf": (lambda: E.ECPointFormatsExtension().create([]), "000b000100",
+             "formats"),
+    "comp": (lambda: E.CompressedCertificateExtension().create([]),
+             "001b000100", "algorithms"),
+}
+
+
+def check_kat(case):
+    name = case["name"]
+    mk, want, field = EMPTY_KAT[name]
+    labels = ["src=kat", "cls=" + name]
+    obj = mk()
+    got = bytes(obj.write()).hex()
+    if got != want:
+        return bad("encoding-differs-from-specification:ext:%s:empty" % name,
+                   "empty list encodes as %s, the vector syntax gives %s" % (
+                       got, want), labels=labels)
+    back, p = parse_ext(bytes.fromhex(want), {})
+    val = getattr(back, field)
+    if val is None or list(val) != []:
+        return bad("roundtrip-value-differs:ext:%s:empty" % name,
+                   "[] parses back as %r" % (val,), labels=labels)
+    return good(labels=labels)
+
+
+def _dc_object(spec):
+    """DelegatedCredential with independent scheme fields."""
+    from tlslite.x509 import DelegatedCredential, Credential
+    from tlslite.utils.pem import dePem
+    from vlib import ROOT
+    pubs = ["serverDelCredRSAPSSPub.pem", "serverDelCredEd25519Pub.pem",
+            "serverDelCredSECP256r1Pub.pem", "serverDelCredSECP384r1Pub.pem"]
+    pub = dePem(open(os.path.join(ROOT, "assets", "keys",
+                                  pubs[spec[1] % 4])).read(), "PUBLIC KEY")
+    dc_alg = [(8, 9), (8, 7), (4, 3), (5, 3)][spec[1] % 4]
+    alg = [(4, 3), (8, 4), (8, 7), (5, 3), (8, 9)][spec[2] % 5]
+    cb = Credential.marshal(spec[3], dc_alg, pub)
+    cred = Credential(valid_time=spec[3], dc_cert_verify_algorithm=dc_alg,
+                      subject_public_key_info=pub, bytes=cb)
+    return DelegatedCredential(cred=cred, algorithm=alg,
+                               signature=prg("dcsig", spec[4]))
+
+
 def check_oversize(case):
     """(2) write() must raise ValueError instead of wrapping a length."""
     what = case["what"]
@@ -1459,10 +1530,16 @@ def rec_spec(draw):
     if k == "cmk":
         return [k, draw(st.integers(0, 0xffffff)), draw(sizes), draw(sizes),
                 draw(st.sampled_from([0, 8, 16]))]
+    if k == "dc":
+        return [k, draw(st.integers(0, 3)), draw(st.integers(0, 4)),
+                draw(st.sampled_from([0, 1, 604800, 2 ** 32 - 1])),
+                draw(st.sampled_from([0, 64, 70, 256]))]
     return [k, draw(st.booleans()), draw(st.sampled_from([0, 1, 16, 32]))]
 
 
 REC_EXPLICIT = [
+    ["dc", 1, 0, 604800, 64], ["dc", 0, 2, 1, 256], ["dc", 2, 1, 0, 70],
+    ["dc", 3, 4, 2 ** 32 - 1, 64],
     ["alert", 2, 40], ["alert", 1, 0], ["ccs"], ["rh3", [3, 3], 22, 0],
     ["rh3", [3, 1], 23, 0xffff], ["rh2", 0x7fff, 0, False],
     ["rh2", 0x3fff, 7, True], ["rh2", 5, 0, True], ["hb", 1, 0, 16],
@@ -1569,6 +1646,8 @@ def explicit(tier, seed):
                     yield {"src": "codec", "hex": full[:cut].hex(),
                            "ops": [["var", ll], ["remaining"]], "adds": [],
                            "mut": ["none"]}
+    for name in sorted(EMPTY_KAT):
+        yield {"src": "kat", "name": name, "mut": ["none"]}
     for spec in REC_EXPLICIT:
         try:
             L = len(rec_build(spec).write())
